@@ -8,7 +8,8 @@ import tempfile
 import warnings
 
 from .core import exc_class, hx
-from .fstree import (CHAIN_FILE, CHAIN_NAME, apply_ops, apply_ops_memory, ref_entries, wide_tree, collect_ids, count_nodes, enc_chain, enc_tree, gen_reread, gen_spelling,
+from .fstree import (CONCURRENT_NOTE, REENTRANT_NOTE, concurrent_trees, gen_concurrent, run_together, trees_on_disk,
+                     CHAIN_FILE, CHAIN_NAME, apply_ops, apply_ops_memory, ref_entries, wide_tree, collect_ids, count_nodes, enc_chain, enc_tree, gen_reread, gen_spelling,
                      gen_tree, has_kind, impl_chain, mutate_tree, on_disk, other_spelling, ref_chain, ref_ids, shrink_tree,
                      shuffled_scandir, spelled_root, subdirs)
 
@@ -47,6 +48,11 @@ RULE = ("random file-system trees (depth <= 5, <= 120 nodes) materialised in a t
         "sticky bits, names up to 255 bytes, one directory with 300 entries (thorough: up to 1000); IN-MEMORY EDITS (20 % "
         "of the cases): the edits below done on the Directory through its dict interface with nested keys "
         "(d[key] = Content.from_bytes(..) / Directory(), del d[key], move) after everything was hashed; "
+        "CONCURRENT READS (5 cases, thorough 40): 2-4 trees (the small tree plus 2-4 files of 70 kB - 512 kB whose bytes differ per "
+        "tree) read in as many threads released together behind a barrier, 3-5 rounds, bounded joins - or nested in one "
+        "thread (a complete from_disk of tree B started from the path_filter / progress_callback of the scan of tree A); every "
+        "result is compared with the reference ids of its own tree (independent hashlib reference; the model checks that "
+        "reference on the base tree); "
         "RE-READ (30 % of the cases): after the reads above the tree is modified in place - files rewritten with other bytes "
         "of the same length and atime/mtime restored, exec bits flipped, file <-> symlink, directory -> file, entries added "
         "and removed, a directory renamed (same inode), two same-size files swapped - or removed and built again at the "
@@ -111,6 +117,10 @@ def gen(rng, tier):
                                                                                ["65", {"t": "S", "m": 0o644, "k": "sock"}]]}]]}],
                              ["66", {"t": "S", "m": 0o755, "k": "chr"}], ["67", {"t": "R", "d": "", "m": 0}]]}
     cases[2:2] = [{"tree": deep3, "seed": 8, "slashes": 0, "spelling": "real", "memedit": {"seed": s_, "n": 5, "mode": "edit"}} for s_ in (1, 2, 3)]
+    # several trees read at the same time (threads) / nested in one thread (re-entrancy)
+    for i in range(5 if tier == "quick" else 40):
+        cases.insert(9 + i * max(1, len(cases) // 7), {"tree": small, "seed": rng.randrange(10**6), "slashes": 0, "spelling": "real",
+                                                        "concurrent": gen_concurrent(rng, ["threads", "threads", "reentrant", "threads", "reentrant"][i % 5])})
     # deep chains: below the recursion limit (must pass) and above it (known finding)
     chains = [(200, 7, "linkup_rel", 1), (500, 0, "real", 0), (900, 250, "real", 0), (1000, 0, "real", 0), (1500, 400, "rootlink", 0)]
     if tier != "quick":
@@ -145,7 +155,7 @@ def _exec_or_special(t):
 
 
 def nontrivial(c):
-    if _is_chain(c):
+    if _is_chain(c) or c.get("concurrent"):
         return True
     t = c["tree"]
     return bool(subdirs(t)) and _exec_or_special(t)
@@ -165,6 +175,8 @@ def classify(c):
         ks.append("reread-after-" + c["reread"].get("mode", "edit"))
     if c.get("memedit"):
         ks.append("in-memory-edits")
+    if c.get("concurrent"):
+        ks.append("concurrent-" + c["concurrent"]["mode"])
     if t["t"] == "D" and len(t["c"]) >= 100:
         ks.append("fan-out>=100")
     if _is_chain(c):
@@ -246,7 +258,49 @@ def _access_facts(d, t):
     return bad[:5]
 
 
+def _impl_concurrent(c):
+    """k trees (big files, different bytes) read at the same time: in k threads, or nested in one thread"""
+    from swh.model.from_disk import Directory
+    cc = c["concurrent"]
+    trees = concurrent_trees(c)
+    want = [{hx(k): v for k, v in ref_ids(t).items()} for t in trees]
+    res = {"wrong": [], "errors": [], "hang": False}
+    with trees_on_disk(trees) as roots:
+        def read(i, **kw):
+            return {hx(k): v for k, v in collect_ids(Directory.from_disk(path=roots[i], **kw)).items()}
+        for rnd in range(cc["rounds"]):
+            if cc["mode"] == "threads":
+                got, errs, hang = run_together([(lambda i=i: read(i)) for i in range(len(roots))])
+            else:
+                inner = {}
+
+                def nested(*a):
+                    if not inner:
+                        inner["pending"] = True
+                        inner["ids"] = read(1)
+                    return True
+                try:
+                    outer = read(0, path_filter=nested) if cc["via"] == "filter" else read(0, progress_callback=nested)
+                    got, errs, hang = [outer, inner.get("ids")], [], False
+                except Exception as e:
+                    got, errs, hang = [None, None], [exc_class(e) + ":" + str(e)[:80]], False
+            res["errors"] += errs
+            res["hang"] = res["hang"] or hang
+            for i, g in enumerate(got):
+                if g is not None and g != want[i]:
+                    diff = sorted(k for k in set(g) | set(want[i]) if g.get(k) != want[i].get(k))[:3]
+                    res["wrong"].append("round %d, tree %d: ids differ at %s" % (rnd, i, diff))
+                elif g is None and not errs and not hang:
+                    res["wrong"].append("round %d, tree %d: no result" % (rnd, i))
+            if res["wrong"] or res["errors"] or res["hang"]:
+                break
+    res["wrong"] = res["wrong"][:4]
+    return res
+
+
 def impl(c):
+    if c.get("concurrent"):
+        return _impl_concurrent(c)
     if _is_chain(c):
         return _impl_chain(c)
     from swh.model.from_disk import Directory
@@ -321,6 +375,8 @@ def impl(c):
 
 
 def requests(c):
+    if c.get("concurrent"):     # the trees with the big files go to the independent reference only (the extracted SHA-1 hashes
+        return ["spec " + enc_tree(c["tree"])]      # ~100 kB/s); the model validates that reference on the small base tree
     if _is_chain(c):
         t = enc_chain(c)
         if c["chain"] > DEPTH_FINDING_FLOOR:    # the implementation is expected to give up: the model's root id is all that is used
@@ -337,6 +393,9 @@ def requests(c):
 
 
 def model(c, resp):
+    if c.get("concurrent"):
+        p = resp[0].split(" ")
+        return {"node_id": p[1], "git_node_id": p[2], "wf": p[3]}
     if _is_chain(c):
         def rid(r):
             return r[3:] if r.startswith("ok ") else r
@@ -399,7 +458,21 @@ def finding_key(c, ires, mres, verdict):
     return None
 
 
+def _oracle_concurrent(c, ires):
+    cc = c["concurrent"]
+    note = CONCURRENT_NOTE % (cc["threads"], cc["rounds"]) if cc["mode"] == "threads" else REENTRANT_NOTE
+    if ires.get("hang"):
+        return "a read did not finish within 60 s " + note
+    if ires.get("errors"):
+        return "from_disk raised %s %s" % (ires["errors"][:2], note)
+    if ires.get("wrong"):
+        return "the ids of a tree are not the git ids of that tree: %s %s" % ("; ".join(ires["wrong"][:2]), note)
+    return None
+
+
 def oracle(c, ires, mres):
+    if c.get("concurrent"):
+        return _oracle_concurrent(c, ires)
     if _is_chain(c):
         return _oracle_chain(c, ires, mres)
     if "error" in ires:
@@ -443,6 +516,12 @@ def oracle(c, ires, mres):
 
 
 def compare(c, ires, mres):
+    if c.get("concurrent"):
+        if mres["wf"] != "1" or mres["node_id"] != mres["git_node_id"]:
+            return "MODEL: base tree of a concurrent case (model / harness bug)"
+        if ref_ids(c["tree"])[b""] != mres["git_node_id"]:
+            return "the harness's reference id of the base tree differs from the model's git_node_id (reference bug)"
+        return None
     if _is_chain(c):
         if mres.get("root_only"):
             return None if mres["rootid"] == ires["chain"]["levels"][0] else "root id of a deep chain differs between model and implementation"
@@ -477,6 +556,13 @@ def compare(c, ires, mres):
 
 
 def shrink(c):
+    if c.get("concurrent"):
+        cc = c["concurrent"]
+        if len(cc["big"]) > 1:
+            yield dict(c, concurrent=dict(cc, big=cc["big"][:-1]))
+        if cc["threads"] > 2:
+            yield dict(c, concurrent=dict(cc, threads=cc["threads"] - 1))
+        return
     if _is_chain(c):
         yield dict(c, chain=c["chain"] // 2)
         yield dict(c, chain=c["chain"] - 1)
@@ -658,6 +744,6 @@ Definition export_case (r : fd_result mtree) : list N := match r with
 def coq_cases(cases):
     """from_disk (both listing orders, filters all / empty), from_disk_iter, node_id, git_node_id, wf_fs, prune_empty and mt_id
     with H := Sha1.sha1 evaluated by vm_compute inside Coq vs the extracted driver, on small trees (extraction cross-check)"""
-    small = [c for c in cases if not c.get("chain") and not c.get("reread") and not c.get("memedit") and count_nodes(c["tree"]) <= 10 and coq_tree_bytes(c["tree"]) <= 400][:12]
+    small = [c for c in cases if not c.get("chain") and not c.get("concurrent") and not c.get("reread") and not c.get("memedit") and count_nodes(c["tree"]) <= 10 and coq_tree_bytes(c["tree"]) <= 400][:12]
     cases[:] = small
     return coq_from_disk(ID, [(c, requests(c)) for c in small])
